@@ -136,10 +136,11 @@ impl Model {
         let s = self.load_and_record(ty, id)?;
         if self.side {
             let dynamic = ty.hot() && self.hot;
-            self.cache.entry((ty, id.to_string())).or_insert(MEntry { show: s.clone(), reload: 0, dynamic });
-        } else {
-            self.ambiguous = true;
+            // first insertion wins: the load itself may have stored a value under its own key
+            let e = self.cache.entry((ty, id.to_string())).or_insert(MEntry { show: s.clone(), reload: 0, dynamic });
+            return Ok(e.show.clone());
         }
+        self.ambiguous = true;
         Ok(s)
     }
     /// `Cache::load_owned_entry`
@@ -279,6 +280,20 @@ impl Model {
             Ins::Owned(ty, id) => {
                 let s = Self::show_res(self.load_owned(*ty, id))?;
                 out.push(mark(s));
+            }
+            Ins::Insert(ty, id, n) => {
+                let show = match ty.kind() {
+                    Kind::Rec => format!("R[ins{n}]"),
+                    _ => format!("L(ins|ins{n})"),
+                };
+                let s = if self.side {
+                    self.get_or_insert(*ty, id, &show)
+                } else {
+                    // side-effect free evaluation: what the look-up would return, or the placeholder
+                    self.ambiguous |= !self.contains(*ty, id);
+                    self.get_cached(*ty, id).map(|e| e.show).unwrap_or(show)
+                };
+                out.push(mark(format!("ins:{s}")));
             }
             Ins::Read(id, ext) => {
                 let s = match self.read(id, ext) {
